@@ -7,7 +7,7 @@ use std::alloc::Layout;
 use std::any::TypeId;
 use std::mem::{align_of, size_of, ManuallyDrop, MaybeUninit};
 
-use any_vec::any_value::{AnyValue, AnyValueCloneable, AnyValueMut, AnyValueRaw, AnyValueWrapper};
+use any_vec::any_value::{AnyValue, AnyValueCloneable, AnyValueMut, AnyValueRaw, AnyValueTypeless, AnyValueWrapper};
 use any_vec::mem::{Empty, MemBuilder, Stack, StackN};
 use any_vec::traits::{Cloneable, None as TNone};
 use any_vec::{AnyVec, SatisfyTraits};
@@ -2080,3 +2080,149 @@ pub fn meta_grid(ctx: &mut Ctx) {
 }
 #[cfg(not(feature = "alloc"))]
 pub fn meta_grid(_ctx: &mut Ctx) {}
+
+// ---------------------------------------------------------------------------------------------
+// Stack<SIZE> with element alignments above 8, driven through bytes only. The inline buffer is not aligned for such types on
+// the pinned tree (known finding D10), so no typed reference is ever formed here and the element types have no drop glue:
+// values go in as `AnyValueRaw`, come out as `as_bytes()` of the vector and of removal handles. Whatever an implementation
+// does about alignment, `capacity()` elements must fit inside the vector object, read back intact, and survive a move of
+// the vector to another address.
+
+#[repr(C, align(16))]
+#[derive(Clone, Copy)]
+struct P16([u64; 2]);
+#[repr(C, align(32))]
+#[derive(Clone, Copy)]
+struct P32([u64; 4]);
+#[repr(C, align(64))]
+#[derive(Clone, Copy)]
+struct P64([u64; 8]);
+
+#[repr(C, align(128))]
+struct Arena2([u8; 4096]);
+
+pub fn stack_overaligned(ctx: &mut Ctx) {
+    let mut sp = Sp::new(ctx, "stack-overaligned", "Stack-bytes-only".into());
+    sp.ctx.ordinal = 0;
+    fn pattern(i: usize, size: usize) -> Vec<u8> {
+        (0..size).map(|k| (hvcore::util::mix64((i as u64) << 16 | k as u64) & 0xff) as u8).collect()
+    }
+    fn run<P: 'static + Copy, const SIZE: usize>(sp: &mut Sp, pname: &str) {
+        type V<const S: usize> = AnyVec<dyn TNone, Stack<S>>;
+        let size = size_of::<P>();
+        let vsize = size_of::<V<SIZE>>();
+        for off in [0usize, 8, 16, 24, 40, 56, 72, 104] {
+            if !sp.take() {
+                continue;
+            }
+            let opsig = "fill-move-drain";
+            let desc = format!("{pname}:Stack<{SIZE}>|vector placed at offset {off} (mod 128), then moved by 8 / 24 bytes");
+            let r = guarded(|| -> Result<(), (&'static str, String)> {
+                let mut arena = Box::new(Arena2([0xC3; 4096]));
+                let base = arena.0.as_mut_ptr() as usize;
+                let place = |o: usize| (base + 512 + o) as *mut V<SIZE>;
+                let inside = |v: &V<SIZE>, what: &str| -> Result<(), (&'static str, String)> {
+                    let lo = v as *const _ as usize;
+                    let b = v.as_bytes();
+                    let (s, e) = (b.as_ptr() as usize, b.as_ptr() as usize + b.len());
+                    if b.len() != v.len() * size || (b.len() > 0 && (s < lo || e > lo + vsize)) {
+                        return Err(("view", format!("{what}: as_bytes() covers {:#x}..{:#x} ({} bytes for {} elements of {size}), the vector object is {:#x}..{:#x}", s, e, b.len(), v.len(), lo, lo + vsize)));
+                    }
+                    Ok(())
+                };
+                let content = |v: &V<SIZE>, first: usize, what: &str| -> Result<(), (&'static str, String)> {
+                    for (k, chunk) in v.as_bytes().chunks(size).enumerate() {
+                        if chunk != &pattern(first + k, size)[..] {
+                            return Err(("model", format!("{what}: element {k} of {} does not hold the bytes that were stored", v.len())));
+                        }
+                    }
+                    Ok(())
+                };
+                unsafe { place(off).write(AnyVec::new::<P>()) };
+                let v = unsafe { &mut *place(off) };
+                let cap = v.capacity();
+                if cap > SIZE / size {
+                    return Err(("capacity", format!("capacity() = {cap} for {size}-byte elements in {SIZE} bytes")));
+                }
+                let lay = v.element_layout();
+                for i in 0..cap {
+                    let val = pattern(i, size);
+                    let mut tmp = std::mem::MaybeUninit::<P>::uninit();
+                    unsafe { std::ptr::copy_nonoverlapping(val.as_ptr(), tmp.as_mut_ptr() as *mut u8, size) };
+                    let raw = unsafe { AnyValueRaw::new(std::ptr::NonNull::new_unchecked(tmp.as_mut_ptr() as *mut u8), size, TypeId::of::<P>()) };
+                    v.push(raw);
+                    inside(v, "after a push")?;
+                }
+                if v.len() != cap || v.capacity() != cap || v.element_layout() != lay || v.element_typeid() != TypeId::of::<P>() {
+                    return Err(("capacity", format!("after filling to capacity {cap}: len {} capacity {} (the vector's own fields changed)", v.len(), v.capacity())));
+                }
+                content(v, 0, "after filling to capacity")?;
+                // spare capacity of the full vector is empty and inside
+                let sb = v.spare_bytes_mut();
+                if !sb.is_empty() {
+                    return Err(("view", format!("spare_bytes_mut() of a full vector is {} bytes", sb.len())));
+                }
+                // canaries around the vector object
+                let a = &arena.0;
+                let o0 = 512 + off;
+                if a[..o0].iter().any(|b| *b != 0xC3) || a[o0 + vsize..].iter().any(|b| *b != 0xC3) {
+                    return Err(("capacity", "bytes outside the vector object were written while filling it to capacity".into()));
+                }
+                // move the vector (a plain move, as into or out of a collection)
+                for delta in [8usize, 24] {
+                    let from = place(off + delta - if delta == 8 { 8 } else { 16 });
+                    let to = place(off + delta);
+                    unsafe {
+                        let moved = from.read();
+                        std::ptr::write_bytes(from as *mut u8, 0xC3, vsize);
+                        to.write(moved);
+                    }
+                    let v = unsafe { &mut *to };
+                    inside(v, "after moving the vector")?;
+                    if v.len() != cap {
+                        return Err(("model", format!("after moving the vector: len {} (was {cap})", v.len())));
+                    }
+                    content(v, 0, "after moving the vector")?;
+                }
+                let v = unsafe { &mut *place(off + 24) };
+                // take elements out again: handles report the stored bytes
+                if cap >= 2 {
+                    let h = v.pop().unwrap();
+                    if h.as_bytes() != &pattern(cap - 1, size)[..] || h.size() != size {
+                        return Err(("model", "pop() hands out other bytes than were stored last".into()));
+                    }
+                    drop(h);
+                    let h = v.remove(0);
+                    if h.as_bytes() != &pattern(0, size)[..] {
+                        return Err(("model", "remove(0) hands out other bytes than were stored first".into()));
+                    }
+                    drop(h);
+                    inside(v, "after pop and remove")?;
+                    content(v, 1, "after pop and remove(0)")?;
+                }
+                unsafe { std::ptr::drop_in_place(place(off + 24)) };
+                Ok(())
+            });
+            match r {
+                Ok(Ok(())) => {}
+                Ok(Err((kind, m))) => {
+                    // an element outside the inline buffer is both a wrong view (C12) and a broken capacity promise (C11)
+                    sp.viol(kind, opsig, m.clone(), &desc);
+                    if kind == "view" {
+                        sp.viol("capacity", opsig, m, &desc);
+                    }
+                }
+                Err(m) => sp.viol("model", opsig, format!("panicked: {m}"), &desc),
+            }
+            sp.ctx.stats.bump("overaligned_stack_placements", 1);
+            sp.done(&desc, true, opsig);
+        }
+    }
+    run::<P16, 64>(&mut sp, "P16");
+    run::<P16, 100>(&mut sp, "P16");
+    run::<P32, 128>(&mut sp, "P32");
+    run::<P32, 200>(&mut sp, "P32");
+    run::<P64, 256>(&mut sp, "P64");
+    run::<P64, 512>(&mut sp, "P64");
+    run::<P64, 600>(&mut sp, "P64");
+}
